@@ -23,7 +23,7 @@ def run(ctx, rep):
         f = P.fn(fname)
         rep.analysed(f)
         for c in f.calls({'raid_gen', 'raid_rec', 'raid_data'}):
-            a = [f.expr(o) for o in c.ops]
+            a = [f.xexpr(o) for o in c.ops]      # expanded: a hoisted `level = state->level` prints as state->level
             if c.callee == 'raid_gen':
                 nd, np_, size, buf = a
             elif c.callee == 'raid_rec':
@@ -106,3 +106,9 @@ def run(ctx, rep):
     C04.block_size_rule(P, rep, 'R-C01-6')
     from .C17 import handle_valid_size_rules
     handle_valid_size_rules(P, rep, 'R-C01-7')
+    # the only allowed exception to "modification time restored": another recorded file with the same size AND the same full time-stamp
+    from .C11 import compared_members, CORE
+    rep.rule('R-C01-3c', 'file_post: the inode-collision exception to restoring the time-stamp compares size, seconds and nanoseconds', 1)
+    cm = compared_members(fp)
+    need_ = max(1, cm.get('size', 0))
+    rep.check(all(cm.get(k, 0) >= need_ for k in CORE), 'R-C01-3c', 'file_post collision test compares the full stamp', fp.file, 'comparisons per member: %s' % cm, function='file_post', construct='collision stamp')
